@@ -23,6 +23,7 @@ func TestCheck(t *testing.T) {
 		go func() { defer close(longDone); longWindow(r) }()
 		refusedByValidation(r)
 		smallIdleScenarios(r)
+		concurrentNeverStricter(r)
 		boundaryScenarios(r)
 		siblingHammered(r)
 		reconfigScenarios(r)
@@ -45,6 +46,7 @@ func TestCheck(t *testing.T) {
 		r.Require(r.Counter("out_of_range_pairs_ACCEPTED_by_validation") == 0 && r.Counter("out_of_range_pairs_refused_by_validation") >= 5, "validation accepts a (qps, burst) pair this check leaves out as unstorable (see out_of_range_pair_accepted_example): drive it")
 		r.Require(r.Counter("boundary_value_scenarios_beyond_2^24") >= 8, "too few boundary scenarios beyond 2^24")
 		r.Require(r.Counter("long_window_admissions") >= 40 && r.Counter("long_window_lower_bound_checks_after_refusal") >= 1, "the long-window observation saw too little")
+		r.Require(r.Counter("never_stricter_concurrent_batches") >= 200, "the concurrent never-stricter batches did not all run") // count-based: 200 / 1000 batches always run
 		r.Require(r.Counter("small_idle_scenarios") >= 30 && r.Counter("small_idle_scenarios_requiring>=1") >= 24 && r.Counter("small_idle_scenarios_reconfigured-then-idle") >= 10 && r.Counter("small_idle_scenarios_reconfigured-drained-idle") >= 10, "too few small-idle lower-bound scenarios")
 		r.Require(r.Counter("partial_sync_cases") >= 12, "too few partial-sync cases in which the faulty part really failed the sync")
 		r.Require(r.Counter("e2e_refusals_429") >= 20 && r.Counter("e2e_forwarded") >= 10, "too few end-to-end events")
